@@ -5,10 +5,13 @@
    comment) and imports in the four forms (import m, import m as a, from p import n, from p import n as a),
    in any order, is read as exactly that sequence; (3) two layouts of the same statements give the same
    statements (line numbers aside).
-   NOT yet proved in Coq (carried by the correspondence engine parser-stmts and the independent predicates
-   of harness/props/c03.py): the indented-block layout and include statements. *)
+   (4) the same for the indented-block layout 'scope/name:' + members and for include statements: a file
+   mixing all five kinds of statement in any order is read as exactly what it spells (C03_roundtrip_all),
+   and flat and block layouts of the same bindings give the same bindings (C03_bindings_layout_irrelevant).
+   Outside the model: CPython's tokenizer (the token shapes of the rendering are those it produces; the
+   correspondence engine parser-stmts feeds the model the real tokenizer's tokens). *)
 From Coq Require Import List String ZArith Bool Arith.
-From GinV Require Import Lib.Out Lib.PyStr Model.Parser Model.ParserSpec Model.ParserSpec2 Model.ParserEngine Proofs.ParserSmall Proofs.ParserProofs Proofs.StatementProofs.
+From GinV Require Import Lib.Out Lib.PyStr Model.Parser Model.ParserSpec Model.ParserSpec2 Model.ParserEngine Proofs.ParserSmall Proofs.ParserProofs Proofs.StatementProofs Proofs.StatementProofs2.
 Import ListNotations.
 Open Scope string_scope.
 Open Scope list_scope.
@@ -82,6 +85,45 @@ Theorem C03_layout_irrelevant : forall o rs1 rs2 fl1 fl2 eof1 eof2,
                snd (parse_all fuel o false (render_file rs1 ++ fl1 ++ [eof1]) []) = None.
 Proof. exact StatementProofs.C03_layout_irrelevant. Qed.
 
+(* ---- blocks and includes ---- *)
+Theorem C03_block_statement : forall o lead row parts hc pre indent ms tail dedent rest,
+  Forall lead_tok lead -> wf_name parts ->
+  Forall (fun t => ty t = COMMENT) hc -> Forall trivia_tok pre -> ty indent = INDENT ->
+  Forall (bmember_ok o) ms -> Forall trivia_tok tail -> ty dedent = DEDENT ->
+  parse_statement o false (lead ++ block_tokens row parts hc pre indent ms tail dedent ++ rest) =
+  POk (Some (block_stmts row parts ms, dedent :: rest, true)).
+Proof. exact StatementProofs2.C03_block_statement. Qed.
+
+Theorem C03_include_statement : forall o lead row strs trailing v rest,
+  Forall lead_tok lead -> Forall str_tok_ok strs -> Forall trivia_tok trailing ->
+  lit_wf o (LStrs strs) -> py_eval o (LStrs strs) = Some v -> is_str_value v = true ->
+  parse_statement o false (lead ++ include_tokens_tr row strs trailing ++ rest) =
+  POk (Some ([SInclude v row], tok NEWLINE "" row :: rest, true)).
+Proof. exact C03_include_statement_lead. Qed.
+
+Theorem C03_roundtrip_all : forall o its final_lead eof,
+  Forall (aitem_ok o) its -> Forall lead_tok final_lead -> ty eof = ENDMARKER ->
+  exists fuel0, forall fuel, fuel0 <= fuel ->
+    parse_all fuel o false (render_all its ++ final_lead ++ [eof]) [] = (flat_map aitem_stmts its, None).
+Proof. exact StatementProofs2.C03_roundtrip_all. Qed.
+
+(* flat or grouped in a block, in any mixture on either side: the same bindings *)
+Theorem C03_bindings_layout_irrelevant : forall o its1 its2 fl1 fl2 eof1 eof2,
+  Forall (aitem_ok o) its1 -> Forall (aitem_ok o) its2 ->
+  flat_map aitem_binds its1 = flat_map aitem_binds its2 ->
+  Forall lead_tok fl1 -> Forall lead_tok fl2 -> ty eof1 = ENDMARKER -> ty eof2 = ENDMARKER ->
+  exists fuel0, forall fuel, fuel0 <= fuel ->
+    map strip_line (filter is_bind (fst (parse_all fuel o false (render_all its1 ++ fl1 ++ [eof1]) []))) =
+    map strip_line (filter is_bind (fst (parse_all fuel o false (render_all its2 ++ fl2 ++ [eof2]) []))) /\
+    snd (parse_all fuel o false (render_all its1 ++ fl1 ++ [eof1]) []) = None /\
+    snd (parse_all fuel o false (render_all its2 ++ fl2 ++ [eof2]) []) = None.
+Proof. exact StatementProofs2.C03_bindings_layout_irrelevant. Qed.
+
+(* the hypotheses are satisfiable: a commented two-member block and its parse *)
+Theorem C03_block_nonvacuous : rblock_ok ex_o ex_block /\
+  parse_all 5 ex_o false ex_file [] = ([SBlock "a" "b" 2; SBind "a" "b" "x" (OZ 1) 3; SBind "a" "b" "y" (OZ 2) 5], None).
+Proof. split; [exact ex_block_ok | exact ex_block_parse]. Qed.
+
 Print Assumptions C03_selector_strict.
 Print Assumptions C03_selector_rejects_gap.
 Print Assumptions C03_split_binding_key.
@@ -92,3 +134,8 @@ Print Assumptions C03_from_statement.
 Print Assumptions C03_roundtrip.
 Print Assumptions C03_roundtrip_engine.
 Print Assumptions C03_layout_irrelevant.
+Print Assumptions C03_block_statement.
+Print Assumptions C03_include_statement.
+Print Assumptions C03_roundtrip_all.
+Print Assumptions C03_bindings_layout_irrelevant.
+Print Assumptions C03_block_nonvacuous.
